@@ -164,6 +164,17 @@ def t_preds():
     return out
 
 
+@case
+def t_translate_delete():
+    import string
+
+    out = []
+    tbl = str.maketrans("", "", string.whitespace)
+    for s in ["a b", " a", "a\t\nb ", "a\u00a0b", "ab", "  ", "1 2\x0c3", "\u2003x"]:
+        out.append((lambda s=s: models.model_translate(_pinned(s), tbl), (lambda s=s: s.translate(tbl))))
+    return out
+
+
 def run():
     ctx.start()
     ws_ok = category_ranges(r"\s") == rt.ranges([c for c in range(0x110000) if chr(c).isspace()])
